@@ -156,6 +156,7 @@ func checkC08(c *Ctx, r *rep.Report) {
 		timed("selector", func() { ruleSelector(r, p) })
 		ruleSwap(r, p)
 		timed("bitorigin", func() { ruleBitOrigin(r, p, "modm"); ruleBitOrigin(r, p, "curve25519") })
+		ruleVartimePredicates(r, p)
 	}
 }
 
@@ -215,6 +216,7 @@ func checkC19(c *Ctx, r *rep.Report) {
 		ruleUnrolledChains(r, p)
 		ruleExpandLengths(r, p)
 		ruleBitOrigin(r, p, "modm")
+		ruleVartimePredicates(r, p)
 		ruleMagnitudes(r, p, "modm")
 	}
 }
@@ -234,5 +236,6 @@ func scalarLayer(c *Ctx, r *rep.Report) {
 		ruleUnrolledChains(r, p)
 		ruleExpandLengths(r, p)
 		ruleBitOrigin(r, p, "modm")
+		ruleVartimePredicates(r, p)
 	}
 }
